@@ -51,7 +51,9 @@ type PfcpServer struct {
 	srCh         chan report.SessReport
 	trToCh       chan TransactionTimeout
 	done         chan struct{} // closed when the main loop has stopped
+	connMu       sync.Mutex    // guards conn and stopReq: Stop() runs on another goroutine
 	conn         *net.UDPConn
+	stopReq      bool
 	recoveryTime time.Time
 	driver       forwarder.Driver
 	lnode        LocalNode
@@ -109,7 +111,17 @@ func (s *PfcpServer) main(wg *sync.WaitGroup) {
 		s.log.Errorf("Listen err: %+v", err)
 		return
 	}
+	s.connMu.Lock()
 	s.conn = conn
+	stopReq := s.stopReq
+	s.connMu.Unlock()
+	if stopReq {
+		// Stop() was called before the socket existed: nobody else will close it
+		if err = conn.Close(); err != nil {
+			s.log.Errorf("Stop pfcp server err: %+v", err)
+		}
+		return
+	}
 
 	wg.Add(1)
 	go s.receiver(wg)
@@ -251,8 +263,12 @@ func (s *PfcpServer) Start(wg *sync.WaitGroup) {
 
 func (s *PfcpServer) Stop() {
 	s.log.Infoln("Stopping pfcp server")
-	if s.conn != nil {
-		err := s.conn.Close()
+	s.connMu.Lock()
+	s.stopReq = true
+	conn := s.conn
+	s.connMu.Unlock()
+	if conn != nil {
+		err := conn.Close()
 		if err != nil {
 			s.log.Errorf("Stop pfcp server err: %+v", err)
 		}
